@@ -568,7 +568,7 @@ pub mod strat {
             0u8..8,
             0u16..12,
             if allow_refuse { prop::bool::weighted(0.25).boxed() } else { Just(false).boxed() },
-            if allow_unknown { prop::bool::weighted(0.08).boxed() } else { Just(false).boxed() },
+            if allow_unknown { prop::bool::weighted(0.03).boxed() } else { Just(false).boxed() },
             any::<bool>(),
         )
             .prop_map(|(inst, cid, refuse, unknown_exchange, buy)| ReqSpec { inst, cid, refuse, unknown_exchange, buy })
